@@ -113,12 +113,79 @@ def norm_handler_stmt(st):
     raise Unclassified(f"_start_passive_server except statement: {t}")
 
 
+POOL = "self.available_data_ports"
+
+
+def pool_polarity(test):
+    """True: the test holds iff a pool is configured (`<pool> is not None`); False: iff none is (`<pool> is None`);
+    None: anything else (truthiness, `==`, another attribute ... are NOT the same test and are not accepted)."""
+    if isinstance(test, ast.UnaryOp) and isinstance(test.op, ast.Not):
+        p = pool_polarity(test.operand)
+        return None if p is None else not p
+    if isinstance(test, ast.Compare) and len(test.ops) == 1 and isinstance(test.ops[0], (ast.Is, ast.IsNot)):
+        a, b = test.left, test.comparators[0]
+        none = lambda e: isinstance(e, ast.Constant) and e.value is None
+        if (src(a) == POOL and none(b)) or (none(a) and src(b) == POOL):
+            return isinstance(test.ops[0], ast.IsNot)
+    return None
+
+
+def same(a, b):
+    return ast.dump(a) == ast.dump(b)
+
+
+def pool_branches(top):
+    """Normalise the statements of _start_passive_server to the ONE shape the ladder extraction reads,
+
+        if self.available_data_ports is not None: POOL_BRANCH   else: OTHER_BRANCH   ; REST
+
+    and return (POOL_BRANCH, OTHER_BRANCH, REST).  Each rule is an equivalence of Python programs (the test has no
+    effect and is evaluated exactly once, first, in every variant); a shape that fits none of them fails closed.
+      N1  `if c: A else: B ; R`              with c = `P is not None` | `P is None` | `None is [not] P` | `not c'`:
+                                             polarity resolved, branches swapped when c means "no pool".
+      N2  `if c: A` ; T          (no else, the last statement of A is `return`/`raise`, so control never falls from A into T)
+                                             == `if c: A else: T`  (the rest of the body IS the other branch; REST = []).
+      N3  after N2, when both branches end in the structurally SAME `return`/`raise` statement E (A = A';E, T = T';E):
+                                             == `if c: A' else: T'` ; E   (tail merged; REST = [E]).
+      N4  when REST = [], a pool branch `viewed_ports = set(); while True: ..; return passive_server`:
+                                             the trailing `return passive_server` is REST of that branch only.
+    What REST and OTHER_BRANCH do is outside the ladder (as before: the facts describe the pool branch); they are
+    returned so that the caller can refuse pool accesses in them."""
+    if not top or not isinstance(top[0], ast.If):
+        raise Unclassified("_start_passive_server: outer `if self.available_data_ports is not None` not found")
+    node, tail = top[0], list(top[1:])
+    pol = pool_polarity(node.test)
+    if pol is None:
+        raise Unclassified("_start_passive_server: outer `if self.available_data_ports is not None` not found")
+    then, other, rest = list(node.body), list(node.orelse), tail
+    if not other:
+        # N2: guard with an early exit, the rest of the function body is the other branch
+        if not (then and isinstance(then[-1], (ast.Return, ast.Raise)) and tail):
+            raise Unclassified("_start_passive_server: `if` on the pool without `else` whose body does not end in return/raise")
+        other, rest = tail, []
+        # N3: one common final return/raise
+        if isinstance(other[-1], (ast.Return, ast.Raise)) and same(then[-1], other[-1]):
+            rest = [then[-1]]
+            then, other = then[:-1], other[:-1]
+    pool, nopool = (then, other) if pol else (other, then)
+    if not rest and pool and isinstance(pool[-1], ast.Return) and src(pool[-1]) == "return passive_server":
+        # N4: nothing follows the `if`, the pool branch returns the listener itself
+        rest, pool = [pool[-1]], pool[:-1]
+    return pool, nopool, rest
+
+
+def touches_pool(stmts):
+    return any(
+        isinstance(n, ast.Attribute) and n.attr == "available_data_ports" for s in stmts for n in ast.walk(s)
+    )
+
+
 def start_passive_facts(fn):
     # if self.available_data_ports is not None: viewed_ports = set(); while True: try: ...
     top = [s for s in fn.body if not (isinstance(s, ast.Expr) and isinstance(s.value, ast.Constant))]
-    if not (isinstance(top[0], ast.If) and src(top[0].test) == "self.available_data_ports is not None"):
-        raise Unclassified("_start_passive_server: outer `if self.available_data_ports is not None` not found")
-    body = list(top[0].body)
+    body, nopool, rest = pool_branches(top)
+    if touches_pool(nopool) or touches_pool(rest):
+        raise Unclassified("_start_passive_server: the pool is accessed outside the `is not None` branch")
     # statements that only prepare the keyword arguments of start_server (they do not touch the pool)
     PRELUDE = ("extra = dict(self._start_server_extra_arguments)", "start_serving = extra.pop('start_serving', True)")
     body = [b for b in body if src(b) not in PRELUDE]
